@@ -132,7 +132,14 @@ fn mint_once(
     };
     let fee = 1u128 << 30;
     tx.fee = CoinValue(fee);
-    tx.outputs.push(CoinData { covhash: CovSpec::True.hash(), value: CoinValue(erg), denom: Denom::Erg, additional_data: Default::default() });
+    if c.cparam % 3 == 0 && erg >= 2 {
+        // the same total split over two ERG outputs, large part first
+        tx.outputs.push(CoinData { covhash: CovSpec::True.hash(), value: CoinValue(erg - 1), denom: Denom::Erg, additional_data: Default::default() });
+        tx.outputs.push(CoinData { covhash: CovSpec::True.hash(), value: CoinValue(1), denom: Denom::Erg, additional_data: Default::default() });
+        st.class("erg-split-over-two-outputs");
+    } else {
+        tx.outputs.push(CoinData { covhash: CovSpec::True.hash(), value: CoinValue(erg), denom: Denom::Erg, additional_data: Default::default() });
+    }
     // all MEL of both inputs minus the fee
     let coin_value = w.snap().coins.get(&coin).map(|x| x.coin_data.value.0).unwrap_or(0);
     tx.outputs.push(CoinData { covhash: CovSpec::True.hash(), value: CoinValue(coin_value + fee_coin_value - fee), denom: Denom::Mel, additional_data: Default::default() });
